@@ -355,6 +355,7 @@ pub fn candidates(case: &Case) -> Vec<Case> {
                         out.push(Case::Iter(x));
                     }
                 }
+                crate::iters::Container::TreeDefault { .. } | crate::iters::Container::FlatDefault { .. } => {}
             }
             out
         }
@@ -510,6 +511,9 @@ pub fn minimise_main(inp: &str, outp: &str) -> i32 {
     let v: serde_json::Value = serde_json::from_str(&s).expect("parse");
     let case: Case = serde_json::from_value(v["case"].clone()).expect("case");
     let sig: Sig = serde_json::from_value(v["sig"].clone()).expect("sig");
+    if !matches!(case, Case::Miri(_)) {
+        crate::core::limit_memory();
+    }
     let budget = std::env::var("QSIM_MIN_BUDGET_S")
         .ok()
         .and_then(|s| s.parse::<u64>().ok())
